@@ -212,7 +212,7 @@ func (p *provider) Close() error {
 
 	for _, s := range scopes {
 		if s != nil {
-			if err := s.Close(); err != nil {
+			if err := s.closeAndWait(); err != nil {
 				errors = append(errors, fmt.Errorf("scope %s: %w", s.ID(), err))
 			}
 		}
@@ -221,7 +221,7 @@ func (p *provider) Close() error {
 	verifYield("provider.Close:scopes-closed")
 	// Close root scope
 	if p.rootScope != nil {
-		if err := p.rootScope.Close(); err != nil {
+		if err := p.rootScope.closeAndWait(); err != nil {
 			errors = append(errors, fmt.Errorf("root scope: %w", err))
 		}
 	}
